@@ -269,3 +269,4 @@ pub fn p_ref<'i, T: TypedNode<'i, R>, RT: RefNode>(s: &'i str, p0: usize, d0: us
 }
 
 pub const XXX: &str = "xxx";
+pub const XXXXX: &str = "xxxxx";
